@@ -10,7 +10,7 @@
 //   SETUP cells=<n> ishift= bf= bl= corr= stag= mcd= impl= timest=<hex> diffc=<hex> diffc_tr=<hex> L <hex>... D <hex>...
 //   MIX step=<transport_step of the observation> nmix=<n> | i k=f k=f k=f | ...      (or "MIX none")
 //   SMIX stag= exch=<hex> thm=<hex> thim=<hex> | k j=f j=f | ...   Rxn_mix_map at the same moment (or "SMIX none")
-//   CB  <cell>,<step>,<state>,<mixrun>,<water>,<total_h_x>,<total_o_x>,<cb_x>,<master total of Na K Li Ca Mg Cl Br> ...
+//   CB  <cell>,<step>,<state>,<mixrun>,<water>,<total_h_x>,<total_o_x>,<cb_x>,<master total of Na K Li Ca Mg Cl Br>,<moles added by the MCD guard so far, same 7 elements> ...
 //       one item per callback = per punched row, in order (doubles as hex)
 //   SEL <user> rows=<r> cols=<c> | heading;heading... | row | row    cells: D<hex> L<int> S<hex> E X
 //   FINAL <cell> s:<elt>=<hex> x:<elt>=<hex> p:<phase>=<hex> ...   stored solution / exchanger / pure-phase state after the run
@@ -29,6 +29,12 @@
 #include "PPassemblage.h"
 #include "hx.hpp"
 #include <sstream>
+
+// bookkeeping of the explicit multicomponent-diffusion guard ("Negative concentration in MCD: added … moles"): a plain
+// global of transport.cpp (allocated in transport(), freed and nulled in transport_cleanup)
+struct MOLES_ADDED { char* name; LDBLE moles; };
+extern struct MOLES_ADDED* moles_added;
+extern int count_moles_added;
 
 struct Obs {
   Phreeqc* e = 0;
@@ -91,6 +97,14 @@ public:
       for (int k = 0; k < 7; k++) {
         class master* m = e->master_bsearch(els[k]);
         ob->cb << "," << hx::hexd(m ? m->total : 0.0);
+      }
+      // moles the engine says it has added so far to balance negative concentrations (cumulative, per element)
+      for (int k = 0; k < 7; k++) {
+        double a = 0.0;
+        if (e->multi_Dflag && e->state == TRANSPORT && moles_added)
+          for (int q = 0; q < count_moles_added; q++)
+            if (moles_added[q].name && !strcmp(moles_added[q].name, els[k])) a += moles_added[q].moles;
+        ob->cb << "," << hx::hexd(a);
       }
     }
     if (!ob->mix_seen && (e->state == TRANSPORT) && e->transport_step >= 1) {
